@@ -725,3 +725,127 @@ func TestC17_R_ConcurrentFirstReadsOnVeryWideNodes(t *testing.T) {
 		}
 	}
 }
+
+// The very first reifications of a process made by several goroutines at once (a server that starts serving requests on
+// all its workers): whatever the library sets up on first use is set up once, and every goroutine gets its node.
+// (The driver runs every test in a process of its own, so this test's reifications are the process's first.)
+func TestC17_R_ConcurrentFirstReificationsOfAProcess(t *testing.T) {
+	st := NewStore()
+	file, _, err := buildFile(st, lcgBytes(100, 1, 0), "size-10", 3)
+	if err != nil {
+		t.Fatal(err)
+	}
+	var es []entrySpec
+	for i := 0; i < 60; i++ {
+		es = append(es, entryFor(fmt.Sprintf("e%02d", i), 0))
+	}
+	plain, _, err := buildDir(st, es[:5])
+	if err != nil {
+		t.Fatal(err)
+	}
+	roots := []cid.Cid{file, plain}
+	for _, f := range []int{8, 16, 256, 1024} {
+		sh, _, err := buildSharded(st, es, f)
+		if err != nil {
+			t.Fatal(err)
+		}
+		roots = append(roots, sh)
+	}
+	ls := st.LinkSystem()
+	var plains []datamodel.Node
+	for _, r := range roots {
+		pn, err := loadPlain(ls, r)
+		if err != nil {
+			t.Fatal(err)
+		}
+		plains = append(plains, pn)
+	}
+	const G = 12
+	errs := make([]string, G)
+	var wg sync.WaitGroup
+	start := make(chan struct{})
+	for g := 0; g < G; g++ {
+		wg.Add(1)
+		go func(g int) {
+			defer wg.Done()
+			<-start
+			p, _ := safe(func() {
+				for i := 0; i < len(plains); i++ {
+					k := (g + i) % len(plains)
+					reifier := []string{"unixfs", "unixfs-preload"}[(g+i)%2]
+					rn, err := ls.KnownReifiers[reifier](lcS, plains[k], ls)
+					if err != nil {
+						errs[g] = fmt.Sprintf("goroutine %d: %s of node #%d: %v", g, reifier, k, err)
+						return
+					}
+					if k >= 1 {
+						if l := rn.Length(); (k == 1 && l != 5) || (k > 1 && l != 60) {
+							errs[g] = fmt.Sprintf("goroutine %d: %s of directory #%d: Length() = %d", g, reifier, k, l)
+							return
+						}
+						if _, err := rn.LookupByString("e03"); err != nil {
+							errs[g] = fmt.Sprintf("goroutine %d: %s of directory #%d: lookup: %v", g, reifier, k, err)
+							return
+						}
+					} else if b, err := rn.AsBytes(); err != nil || len(b) != 100 {
+						errs[g] = fmt.Sprintf("goroutine %d: %s of the file: %d bytes, %v", g, reifier, len(b), err)
+						return
+					}
+				}
+			})
+			if p != nil {
+				errs[g] = fmt.Sprintf("goroutine %d: panic: %v", g, p)
+			}
+		}(g)
+	}
+	close(start)
+	c17Wait(&wg, "first reifications of the process")
+	for _, e := range errs {
+		if e != "" {
+			t.Fatalf("C17: %d goroutines making the first reifications of the process: %s", G, e)
+		}
+	}
+}
+
+// ... and the node kept from a failed preload (see C15) is shared by goroutines like any other.
+func TestC17_R_NodeKeptFromAFailedPreloadUsedConcurrently(t *testing.T) {
+	for _, missing := range []int{0, 3, 25} {
+		node, es := c15FailedPreloadNode(t, 1200, 16, missing)
+		if node == nil {
+			continue
+		}
+		const G = 8
+		errs := make([]string, G)
+		var wg sync.WaitGroup
+		start := make(chan struct{})
+		for g := 0; g < G; g++ {
+			wg.Add(1)
+			go func(g int) {
+				defer wg.Done()
+				<-start
+				p, _ := safe(func() {
+					for i := g; i < len(es); i += 13 {
+						v, err := node.LookupByString(es[i].Name)
+						if c, e := linkOf(v); err != nil || e != nil || c != es[i].Cid {
+							errs[g] = fmt.Sprintf("lookup of %q: %v %v", es[i].Name, v, err)
+							return
+						}
+					}
+					if l := node.Length(); l != int64(len(es)) {
+						errs[g] = fmt.Sprintf("Length() = %d", l)
+					}
+				})
+				if p != nil {
+					errs[g] = fmt.Sprintf("panic: %v", p)
+				}
+			}(g)
+		}
+		close(start)
+		c17Wait(&wg, "node kept from a failed preload")
+		for g, e := range errs {
+			if e != "" {
+				t.Fatalf("C17: node kept from a preload that failed at shard #%d, shared by %d goroutines once storage is healthy: goroutine %d: %s", missing, G, g, e)
+			}
+		}
+	}
+}
